@@ -204,6 +204,7 @@ class Interp:
         self.spec = False                   # spec mode: total operations, no forking
         self.feas_cache = {}
         self.feas_timeout_ms = feas_timeout_ms
+        self.feas_rlimit = 25000          # deterministic effort bound of a feasibility query
         self.paths = 0
         self.max_paths = max_paths
         self.obligations = []               # filled by verify.py through emit()
@@ -409,7 +410,7 @@ class Interp:
         r = self.feas_cache.get(key)
         if r is None:
             self.solver_calls += 1
-            res = solve.z3_check(assertions, self.feas_timeout_ms)
+            res = solve.z3_check(assertions, 3000, rlimit=self.feas_rlimit)
             self.solver_time += res.time
             r = res.verdict != "unsat"
             self.feas_cache[key] = r
